@@ -3,6 +3,7 @@ package sim
 import (
 	"encoding/json"
 	"strings"
+	"time"
 )
 
 // minimise shrinks the plan of a replay while the same violation (same
@@ -10,6 +11,15 @@ import (
 // operations are dropped, concurrent tasks removed, simulator choices
 // simplified (map order -> sorted, schedule -> fewest switches, faults
 // removed), and request bodies reduced (biases, alternatives, criteria).
+// minimiseDeadline bounds the wall-clock time all reductions of one check may take together
+// (zero: no bound). Past it, replays are written as far as they have been reduced: still
+// verified in a fresh process, only longer.
+var minimiseDeadline time.Time
+
+func pastMinimiseDeadline() bool {
+	return !minimiseDeadline.IsZero() && time.Now().After(minimiseDeadline)
+}
+
 func minimise(rp *Replay, budget int, counter *int) *Replay {
 	if rp.Mode != "plan" || len(rp.Plans) != 1 {
 		return rp
@@ -17,7 +27,7 @@ func minimise(rp *Replay, budget int, counter *int) *Replay {
 	cur := clonePlan(rp.Plans[0])
 	want := rp.Expected
 	test := func(p *Plan) bool {
-		if budget <= 0 {
+		if budget <= 0 || pastMinimiseDeadline() {
 			return false
 		}
 		budget--
